@@ -240,9 +240,20 @@ UNEXPECTED = []     # failures on F14-tagged descriptors that are NOT the known 
 
 
 def run_case(desc):
+    import signal
     from . import c14_gen as G
     d = copy.deepcopy(desc)
-    obs = G.run(d)
+
+    def on_alarm(signum, frame):    # extract() has no fuel: a wrong splice can loop for ever
+        raise TimeoutError("case did not finish within 30 s (extract() looping?)")
+
+    old = signal.signal(signal.SIGALRM, on_alarm)
+    signal.setitimer(signal.ITIMER_REAL, 30)
+    try:
+        obs = G.run(d)
+    finally:
+        signal.setitimer(signal.ITIMER_REAL, 0)
+        signal.signal(signal.SIGALRM, old)
     orc = obs.get("oracle")
     if desc.get("leg") == "spec":
         # only the known deviation (frames across the hop) may be attributed to the signature
